@@ -1,3 +1,162 @@
-/-! # C02 — property theorems (stub: filled in when the property's model is built) -/
+import ScenicModel.Props.C02Checker
+import ScenicModel.Props.C02Defaults
+import ScenicModel.Model.SceneReqs
+
+/-! # C02 — every generated scene satisfies all of its requirements
+
+Parts: `C02Checker` (the sample checkers and the rejection loop, for every order / history / skipped
+optional check), `C02Defaults` (completeness of the default requirements), `C02Metrics` (invariants of the
+statistics), `C02Oracle` (soundness of the separating-axis / half-space certificates used by the scene
+re-verification).  This file composes the first two into the statement of the property. -/
 namespace Scenic.C02
+open Scenic.Checker Scenic.DefaultReqs Scenic.SceneReqs
+
+theorem mem_toReqsFrom (c : DefaultReqs.Cfg) (act : Nat → Bool) :
+    ∀ (kinds : List ReqKind) (n i : Nat) (k : ReqKind), kinds[i]? = some k →
+      (⟨n + i, k.optional c, kindActive act k⟩ : Req) ∈ toReqsFrom c act n kinds
+  | [], _, _, _, h => by simp at h
+  | k0 :: ks, n, i, k, h => by
+    unfold toReqsFrom
+    cases i with
+    | zero =>
+      simp only [List.getElem?_cons_zero, Option.some.injEq] at h
+      subst h
+      exact List.mem_cons_self
+    | succ i =>
+      simp only [List.getElem?_cons_succ] at h
+      have := mem_toReqsFrom c act ks (n + 1) i k h
+      have e : n + 1 + i = n + (i + 1) := by omega
+      rw [e] at this
+      exact List.mem_cons_of_mem _ this
+
+/-- a sample accepted by the checker falsifies no active non-optional requirement *kind* -/
+theorem accepted_kinds (c : DefaultReqs.Cfg) (act : Nat → Bool) (kinds : List ReqKind) (w : World)
+    (hacc : ∀ r ∈ toReqs c act kinds, r.active = true → r.optional = false → falsOf c kinds w r.id = false) :
+    ∀ k ∈ kinds, kindActive act k = true → k.optional c = false → falsified c w k = false := by
+  intro k hk hact hopt
+  obtain ⟨i, hi⟩ := List.mem_iff_getElem?.mp hk
+  have hm := mem_toReqsFrom c act kinds 0 i k hi
+  have := hacc _ hm hact hopt
+  simp only [Nat.zero_add, falsOf, hi] at this
+  exact this
+
+/-- what "satisfies the built-in requirements" means for a sample `w` of a scenario with the given
+    instances: the statement of the property, in terms of the real geometric predicates -/
+def BuiltinsHold (c : DefaultReqs.Cfg) (insts : List Inst) (objects : List Nat) (ego : Option Nat) (w : World) : Prop :=
+  -- no two objects overlap unless one allows collisions
+  (∀ a b, (a, b) ∈ pairs objects → w.allow a = false → w.allow b = false → w.intersects a b = false) ∧
+  -- every object lies inside its container
+  (∀ o ∈ objects, (instAt insts o).containerAll = false → w.contained o = true) ∧
+  -- every instance that must be visible from an observer is, given all actually-occluding objects
+  (∀ t, t < insts.length → ∀ s, (instAt insts t).observing = some s →
+      w.canSee s t ((fullOccluders c insts objects s t).filter w.occluding) = true) ∧
+  -- every instance that must not be visible is not
+  (∀ t, t < insts.length → ∀ s, (instAt insts t).nonObserving = some s →
+      w.canSee s t ((fullOccluders c insts objects s t).filter w.occluding) = false) ∧
+  -- every `requireVisible` object is visible from the ego
+  (∀ o ∈ objects, (instAt insts o).requireVisible = true → some o ≠ ego →
+      ∃ e, ego = some e ∧ w.canSee e o ((objects.filter fun x => x != e && x != o).filter w.occluding) = true)
+
+/-- from "no default requirement is falsified" to the geometric statement -/
+theorem builtins_of_not_falsified (c : DefaultReqs.Cfg) (hc : c.WF = true) (insts : List Inst)
+    (objects : List Nat) (ego : Option Nat) (defaults : List ReqKind)
+    (hgen : generate c insts objects ego = some defaults) (w : World) (hw : w.consistent insts)
+    (hnf : ∀ k ∈ defaults, k.optional c = false → falsified c w k = false) :
+    BuiltinsHold c insts objects ego w := by
+  obtain ⟨hI, hC, hV, hN, hE⟩ := defaults_complete c hc insts objects ego defaults hgen
+  obtain ⟨m1, m2, m3, m4, _⟩ := defaults_mandatory c hc
+  obtain ⟨hcr, hcf, _, _, _, _, _, _, _, _, _, _, _, _, _, _, hskip, hpos, hcneg, hvneg, hvf, hnn, _⟩ := dwf_parts c hc
+  refine ⟨?_, ?_, ?_, ?_, ?_⟩
+  · intro a b hab ha hb
+    have col : ∀ x, w.allow x = false → collidable c (instAt insts x) = true := by
+      intro x hx
+      unfold collidable tri
+      cases hs : (instAt insts x).allowStatic with
+      | none => exact hcr
+      | some v =>
+        have := hw x v hs
+        rw [hx] at this
+        subst this
+        exact hcf
+    have := hnf _ (hI a b hab (col a ha) (col b hb)) (m1 a b)
+    simp only [falsified, hskip, ha, hb, hpos, Bool.or_self, Bool.and_false, Bool.false_eq_true, if_false,
+      beq_true] at this
+    exact this
+  · intro o ho hca
+    have := hnf _ (hC o ho hca) (m2 o)
+    simp only [falsified, hcneg] at this
+    simpa using this
+  · intro t ht s hs
+    have := hnf _ (hV t ht s hs) (m3 s t _)
+    simp only [falsified, hvneg, hvf, if_true] at this
+    simpa using this
+  · intro t ht s hs
+    have := hnf _ (hN t ht s hs) (m4 s t _)
+    simp only [falsified, hvneg, hvf, hnn, if_true] at this
+    simpa using this
+  · intro o ho hrv hne
+    obtain ⟨e, he, hmem⟩ := hE o ho hrv hne
+    refine ⟨e, he, ?_⟩
+    have := hnf _ hmem (m3 e o _)
+    simp only [falsified, hvneg, hvf, if_true] at this
+    simpa using this
+
+/-- **C02, composed.**  For every scenario (instance descriptors, object order, ego, number of user
+    requirements), every checker state `st` (i.e. every history of previously checked samples and scenes),
+    every selection `act` of soft requirements for this scene, every stream of candidate samples and every
+    sequence of measured running times: the sample returned by `_generateInner` was really sampled,
+    satisfies every user requirement selected for this scene, and satisfies the built-in requirements
+    (no overlap unless collisions are allowed, containment, (in)visibility with the complete occluder
+    lists). -/
+theorem generated_scene_satisfies_requirements
+    (cc : Checker.Cfg) (hcc : cc.WF = true) (dc : DefaultReqs.Cfg) (hdc : dc.WF = true)
+    (insts : List Inst) (objects : List Nat) (ego : Option Nat) (defaults : List ReqKind)
+    (hgen : generate dc insts objects ego = some defaults)
+    (nUser B : Nat) (st st' : State) (act : Nat → Bool) (cands : List (Option World × List Rat)) (j : Nat)
+    (h : generateInner cc B (toReqs dc act (allKinds defaults nUser)) st
+          (cands.map (attemptOf dc (allKinds defaults nUser))) 0 = (st', some j)) :
+    ∃ w ts, cands[j]? = some (some w, ts) ∧
+      (∀ k, k < nUser → act k = true → w.userFalse k = false) ∧
+      (w.consistent insts → BuiltinsHold dc insts objects ego w) := by
+  obtain ⟨a, ha, _, hsr, hall⟩ := generate_sound cc hcc B _ _ st 0 st' j h
+  simp only [Nat.sub_zero, List.getElem?_map, Option.map_eq_some_iff] at ha
+  obtain ⟨cand, hcand, hattempt⟩ := ha
+  obtain ⟨ow, ts⟩ := cand
+  cases ow with
+  | none =>
+    simp only [attemptOf] at hattempt
+    subst hattempt
+    simp at hsr
+  | some w =>
+    simp only [attemptOf] at hattempt
+    subst hattempt
+    refine ⟨w, ts, hcand, ?_, ?_⟩
+    · intro k hk hact
+      have hmem : ReqKind.user k ∈ allKinds defaults nUser := by
+        unfold allKinds
+        exact List.mem_append.mpr (Or.inr (List.mem_map.mpr ⟨k, List.mem_range.mpr hk, rfl⟩))
+      have := accepted_kinds dc act _ w hall _ hmem (by simpa [kindActive] using hact)
+        ((defaults_mandatory dc hdc).2.2.2.2 k)
+      have huf : dc.userFalsifiedWhenFalse = true := by
+        obtain ⟨_, _, _, _, _, _, _, _, _, _, _, _, _, _, _, _, _, _, _, _, _, _, h23⟩ := dwf_parts dc hdc
+        exact h23
+      simpa [falsified, huf] using this
+    · intro hw
+      apply builtins_of_not_falsified dc hdc insts objects ego defaults hgen w hw
+      intro k hk hopt
+      have hmem : k ∈ allKinds defaults nUser := List.mem_append.mpr (Or.inl hk)
+      have hka : kindActive act k = true := by
+        -- default requirements are never user requirements
+        cases k with
+        | user u =>
+          exfalso
+          -- `generate` never produces a `.user` kind
+          have : ∀ x ∈ defaults, ∀ u, x ≠ ReqKind.user u := by
+            intro x hx u hxu
+            subst hxu
+            exact generate_no_user dc insts objects ego defaults hgen u hx
+          exact this _ hk u rfl
+        | _ => rfl
+      exact accepted_kinds dc act _ w hall k hmem hka hopt
+
 end Scenic.C02
